@@ -1,4 +1,41 @@
-/- Driver.C05 — stream `C05` (stub: replaced when the property's model is built). -/
+/-
+  Driver.C05 — stream `C05`: the same lock-step histories as `C04` (wire format: Driver.DomWire).
+  Output: one entry per state, `(ret (struct*) (html*))`; the first entry is the initial world.
+    struct := ( uid sc (block*) (child*) "text" ((k v)*) )         for every element, sorted by uid
+    html   := ( uid "outerHTML" "innerHTML" "textContent" )         for every element when the world has at
+              most 12 elements, else for the roots and the target of the call
+-/
+import Driver.DomWire
 namespace Driver.C05
-def run (_payload : String) : String := "unimplemented"
+open AHP AHP.Sexp AHP.Dom Driver.DomWire
+
+def structSx (e : Meta × List DN) : Sexp :=
+  .list [natAtom e.1.id, sym (if e.1.sc then "1" else "0"), .list (e.2.map blockSx), .list (e.1.children.map natAtom),
+         strAtom e.1.text, .list (e.1.attrs.map (fun a => .list [strAtom a.1, optStr a.2]))]
+
+def htmlSx (e : Meta × List DN) : Sexp :=
+  .list [natAtom e.1.id, strAtom (outerHTML (.el e.1 e.2)), strAtom (innerHTML e.1 e.2), strAtom (textContent (.el e.1 e.2))]
+
+def stateSx (w : World) (t : Nat) : List Sexp :=
+  let all := allElems w
+  let shown := if all.length ≤ 12 then all else
+    let keep := t :: rootIds w
+    all.filter (fun e => keep.contains e.1.id)
+  [.list (all.map structSx), .list (shown.map htmlSx)]
+
+def loop : World → List Op → List Sexp → List Sexp
+  | _, [], acc => acc.reverse
+  | w, op :: ops, acc =>
+    match step w op with
+    | none => (.list [sym "outside"] :: acc).reverse
+    | some (w', v) => loop w' ops (.list (valSx v :: stateSx w' (opTarget op)) :: acc)
+
+def run (payload : String) : String :=
+  match Sexp.parse payload with
+  | some sx =>
+    match toCase sx with
+    | some c => (Sexp.list (loop c.world c.ops [.list (sym "init" :: stateSx c.world 0)])).render
+    | none => "bad-case"
+  | none => "bad-case"
+
 end Driver.C05
